@@ -5,7 +5,7 @@ from __future__ import annotations
 
 from sa.guards import CountResolver
 from sa.cfront import LIB_TUS
-from . import lib_guards, lib_module, lib_gate, lib_err
+from . import lib_guards, lib_module, lib_gate, lib_err, lib_file
 
 LEVEL = "other"
 EXPLANATION = ("Static analysis of /repo's current C and Python source (clang type-checked AST, Python ast): "
@@ -23,6 +23,11 @@ def run(ctx):
     lib_gate.gate(ctx, P)
     E = lib_err.discipline(ctx, P, LIB_TUS + ["module"])
     lib_err.module_handlers(ctx, P, E)
+    lib_module.module_guards(ctx, P)
+    lib_module.array_flags(ctx, P)
+    lib_module.bytes_length(ctx, P)
+    lib_module.parsed_used(ctx, P)
+    lib_file.offsets_cover(ctx, P)
     ctx.assumptions += [
         "clang-14's AST reflects the code that setup.py compiles (same include paths, -std=c99)",
         "libc and CPython API functions behave as documented",
